@@ -1,12 +1,6 @@
 #!/bin/sh
-# Builds the whole verification framework offline from files on disk.
+# Builds the verification framework offline from files on disk (every registered check part).
 set -e
-cd /verif/harness
 export CARGO_NET_OFFLINE=true
-cargo build --profile verif --workspace
-if [ -f /verif/harness/.verifrel ]; then
-  for spec in $(cat /verif/harness/.verifrel); do
-    pkg=${spec%%:*}; bin=${spec##*:}
-    cargo build --profile verifrel -p "$pkg" --bin "$bin"
-  done
-fi
+cd /verif
+exec python3 ./check --build-all
